@@ -69,7 +69,7 @@ def _smooth(rng, n):
 
 
 def points_family(rng, fam=None, n=None):
-    fams = ['smooth', 'noisy', 'polyline', 'zigzag', 'walk', 'collinear', 'collinear-shuffled', 'int', 'int-small', 'consecutive-repeats',
+    fams = ['smooth', 'noisy', 'polyline', 'zigzag', 'walk', 'collinear', 'collinear-shuffled', 'int', 'int-small', 'consecutive-repeats', 'long-jitter',
             'revisits', 'closed', 'closed-smooth', 'hash-pairs', 'near-equal', 'two', 'three', 'big', 'tiny']
     fam = fam or rng.choice(fams)
     n = n or rng.choice([2, 3, 3, 4, 5, 6, 8, 10, 13, 17, 24, 30, 40, 59, 60, rng.randint(2, 60)])
@@ -80,6 +80,12 @@ def points_family(rng, fam=None, n=None):
         s = 10 ** rng.uniform(-1, 1.5)
         pts = [(x + rng.gauss(0, s), y + rng.gauss(0, s)) for x, y in _smooth(rng, n)]
     elif fam == 'polyline' or fam in ('two', 'three'): pts = [(rng.uniform(-500, 500), rng.uniform(-500, 500)) for _ in range(n)]
+    elif fam == 'long-jitter':
+        # a stroke tens of thousands of units long with a few sub-unit jitter steps (a fitted piece far shorter than 1/50000 of the whole)
+        n = min(n, 12); st = rng.uniform(5000, 20000)
+        pts = [(i * st, (rng.uniform(2000, 6000) if i % 2 else 0.0)) for i in range(n)]
+        for _j in range(rng.randint(1, 2)):
+            i = rng.randrange(1, max(2, len(pts))); pts.insert(i, (pts[i - 1][0] + rng.uniform(0.1, 0.5), pts[i - 1][1] + rng.uniform(0.1, 0.5)))
     elif fam == 'zigzag':
         w, h = rng.uniform(1, 60), rng.uniform(1, 300)
         pts = [(i * w, (h if i % 2 else 0.0) + rng.uniform(-1, 1) * (rng.random() < 0.3)) for i in range(n)]
@@ -391,6 +397,16 @@ def search(ctx):
         if len(samples) < 2 and r and len(r) > 1: samples.append({'family': fam, 'n': len(pts), 'error': error, 'cornerTolerance': ct, 'maxSegments': B, 'segments': len(r)})
         for cls, what, obs in f:
             fails.append({'class': cls, 'what': what, 'input': {'family': fam, 'points': pts, 'error': error, 'cornerTolerance': ct, 'maxSegments': B, 'via': via},
+                          'observed': obs, 'expected': 'connected chain of <= budget finite cubics from the first to the last point within sqrt(error) of every input point'})
+    # fromPoints on long strokes with sub-unit jitter (post-processing of the fitted path must not drop fitted pieces)
+    for i in range(ctx.n(60, 1000)):
+        fam, pts = points_family(rng, 'long-jitter')
+        if not distinct2(pts): continue
+        error = rng.choice([0.01, 0.05, 1.0, 10 ** rng.uniform(-2, 1)]); ct = 10 ** rng.uniform(-1, 2); B = len(pts) + rng.choice([0, 5, 200])
+        f, r = check_property(pts, error, ct, B, 'fromPoints')
+        ev += 1; dist['long-jitter/fromPoints'] = dist.get('long-jitter/fromPoints', 0) + 1
+        for cls, what, obs in f:
+            fails.append({'class': cls, 'what': what, 'input': {'family': fam, 'points': pts, 'error': error, 'cornerTolerance': ct, 'maxSegments': B, 'via': 'fromPoints'},
                           'observed': obs, 'expected': 'connected chain of <= budget finite cubics from the first to the last point within sqrt(error) of every input point'})
     fails.sort(key=lambda f: len(f['input']['points']))
     # watch on the one hypothesis of C14_fitCurve_terminates_R (not part of the property as written, reported as a measurement only):
